@@ -505,7 +505,9 @@ def main(chk: Check, build=True):
             if after is None:
                 if "Empty Frame Pairs" in str(res2):
                     continue
-                chk.fail("Evaluator raised after deleting predictions", new, observed=res2); continue
+                mixed_ = any(f.get("user_in_pr") is not None and f["pr"] is not None for f in new["frames"])
+                chk.fail("Evaluator raised after deleting predictions", new, observed=res2,
+                         signatures=[SIG_MIXED] if mixed_ and "score" in str(res2) else []); continue
             if np.any(after > base + 1e-12):
                 sigs = []
                 if mode == "frame" and any(case["frames"][fi]["gt"] for fi in removed_frames):
@@ -534,6 +536,8 @@ def main(chk: Check, build=True):
                               and any(d[0] == k[0] for d in held)]
                     if held and better:
                         sigs.append(SIG_OUTSCORED)
+                if any(f.get("user_in_pr") is not None and f["pr"] is not None for f in case["frames"]):
+                    sigs.append(SIG_MIXED)   # HEAD mis-indexes such frames (F-C16d); deletion shifts the indices again
                 chk.fail(f"deleting predictions ({mode}) increased recall", {"case": case, "deleted": deleted},
                          observed={"before": base.tolist(), "after": after.tolist()}, signatures=sigs)
 
